@@ -7,6 +7,7 @@ import (
 	"encoding/json"
 	"errors"
 	"fmt"
+	"io"
 	"os"
 	"os/exec"
 	"reflect"
@@ -41,6 +42,23 @@ type TenantSpec struct {
 	// AFOnly > 0: that many adaptation-only packets carrying transport private data are inserted
 	// into the tenant's stream (returned by NextPacket and kept by the tenant like any other)
 	AFOnly int `json:"af_only,omitempty"`
+	// FailWrite > 0 (mux tenants): the tenant's writer refuses its FailWrite-th Write call once
+	FailWrite int `json:"fail_write,omitempty"`
+}
+
+// failOnceWriter refuses one Write call.
+type failOnceWriter struct {
+	w      io.Writer
+	calls  int
+	failAt int
+}
+
+func (f *failOnceWriter) Write(p []byte) (int, error) {
+	f.calls++
+	if f.calls == f.failAt {
+		return 0, world.ErrInjected
+	}
+	return f.w.Write(p)
 }
 
 // SchedPlan decides who runs next at every yield.
@@ -126,6 +144,9 @@ func genTenant(r *core.PRNG) TenantSpec {
 				op.AF = genAF(r, 8, false)
 			}
 			t.Ops = append(t.Ops, op)
+		}
+		if r.Chance(1, 4) {
+			t.FailWrite = r.Range(1, 900)
 		}
 		return t
 	}
@@ -236,7 +257,11 @@ func runTenant(spec *TenantSpec, yield func()) (res *tenantResult) {
 		if period < 1 {
 			period = 1
 		}
-		m := astits.NewMuxer(context.Background(), &buf, astits.MuxerOptTablesRetransmitPeriod(period))
+		var w io.Writer = &buf
+		if spec.FailWrite > 0 {
+			w = &failOnceWriter{w: &buf, failAt: spec.FailWrite}
+		}
+		m := astits.NewMuxer(context.Background(), w, astits.MuxerOptTablesRetransmitPeriod(period))
 		pids := map[int]uint16{}
 		var descGuards []*guarded
 		checkDesc := func(i int) {
